@@ -79,6 +79,86 @@ pub fn run_project(files: &[(String, String)]) -> Result<Outcome, String> {
     .map_err(|e| format!("panic in add_content/validate: {e}"))
 }
 
+/// Like run_project, but the final contents are reached through a short edit history chosen
+/// deterministically from the texts: decoy contents that are replaced, intermediate validate()
+/// calls, a temporary extra file that is removed again. By C12 the result must be the same as
+/// for the plain run, so the callers' expectations are unchanged; this lets the single-shot
+/// checks notice state that survives replacement / removal.
+pub fn run_project_with_history(files: &[(String, String)]) -> Result<Outcome, String> {
+    let mut key = Vec::new();
+    for (id, t) in files {
+        key.extend_from_slice(id.as_bytes());
+        key.extend_from_slice(t.as_bytes());
+    }
+    let h = crate::src::fnv1a(&key);
+    let mode = h % 4;
+    if mode == 0 || files.is_empty() {
+        return run_project(files);
+    }
+    guarded(|| {
+        let mut p: Parser<String> = Parser::new();
+        const DECOYS: [&str; 4] = ["", "package zz; parcelable Decoy { int x; }", "package a; interface {", "package p; interface Foo { void f(); }"];
+        match mode {
+            1 => {
+                // every id first holds a decoy (or another file's content), then its final content
+                for (i, (id, _)) in files.iter().enumerate() {
+                    let d = if (h >> (8 + i)) & 1 == 0 {
+                        DECOYS[((h >> 16) as usize + i) % DECOYS.len()].to_owned()
+                    } else {
+                        files[(i + 1) % files.len()].1.clone()
+                    };
+                    p.add_content(id.clone(), &d);
+                }
+                let _ = p.validate();
+                for (id, c) in files {
+                    p.add_content(id.clone(), c);
+                }
+            }
+            2 => {
+                // reverse order, validate after every addition
+                for (id, c) in files.iter().rev() {
+                    p.add_content(id.clone(), c);
+                    let _ = p.validate();
+                }
+            }
+            _ => {
+                // a temporary extra file (a copy of one of the files, i.e. a duplicate key) comes and goes
+                for (id, c) in files {
+                    p.add_content(id.clone(), c);
+                }
+                let extra = files[(h >> 20) as usize % files.len()].1.clone();
+                p.add_content("__tmp".to_owned(), &extra);
+                let _ = p.validate();
+                p.remove_content("__tmp".to_owned());
+                p.remove_content("__never".to_owned());
+            }
+        }
+        let parse = p.verif_parse_results().clone();
+        let valid = p.validate();
+        Outcome { parse, valid }
+    })
+    .map_err(|e| format!("panic in add_content/remove_content/validate: {e}"))
+}
+
+/// Final contents `files`, reached after an id "__ghost" first held `ghost_first` (a well-formed
+/// file defining a key), everything was validated, and the ghost was then replaced by text
+/// that has no tree. The ghost stays in the parser (tree-less), so it must not define anything.
+pub fn run_project_with_ghost(files: &[(String, String)], ghost_first: &str, ghost_final: &str) -> Result<Outcome, String> {
+    guarded(|| {
+        let mut p: Parser<String> = Parser::new();
+        p.add_content("__ghost".to_owned(), ghost_first);
+        for (id, c) in files {
+            p.add_content(id.clone(), c);
+        }
+        let _ = p.validate();
+        p.add_content("__ghost".to_owned(), ghost_final);
+        let parse = p.verif_parse_results().clone();
+        let valid = p.validate();
+        Outcome { parse, valid }
+    })
+    .map_err(|e| format!("panic in add_content/validate: {e}"))
+}
+
 pub fn run_one(text: &str) -> Result<(ParseFileResult<String>, ParseFileResult<String>), String> {
     let o = run_project(&[("f".to_owned(), text.to_owned())])?;
     let mut o = o;
